@@ -13,8 +13,9 @@ open NitroVerif.Gql NitroVerif.CheckCommon NitroVerif.Valid
 example : SchemaValid c04Schema ∧ Doc.NonEmptySelections c04Doc ∧ noEmptyUnionB c04Schema = true ∧
     rootsDefinedB c04Schema c04Doc = true ∧ constVarDefsB c04Doc = true := by decide +kernel
 
-/-- **Exact characterisation.** For a valid schema (without empty unions) and a document as the parser produces it
-    (no empty selection set, constant variable definitions) whose operation kinds the schema supports:
+/-- **Exact characterisation.** For a valid schema (without empty unions) and a document without empty selection sets
+    (as the parser's grammar guarantees — assumed, not proved here) and with constant variable definitions (the
+    grammar of the specification; NOT enforced by the nitrogql parser) whose operation kinds the schema supports:
     `check_operation_document` reports NO diagnostic if and only if the document satisfies every one of the 25
     validation rules nitrogql implements. -/
 theorem C04_C03_exact (S : Schema) (D : Doc) (hS : SchemaValid S) (hD : Doc.NonEmptySelections D)
